@@ -304,9 +304,27 @@ def buffer_role(w, S, R, fn, cs):
     return None
 
 
+def scroll_table_verdict(w, S, R):
+    """(bad, n) of the evaluated decision table of the scrolling commands, cached per fact set."""
+    c = getattr(w.facts, "_scroll_table", None)
+    if c is None:
+        from rules import hinterp
+        up_, down_ = scroll_prims(w, S)
+        try:
+            c = hinterp.scroll_handlers_semantics(w, S, R, up_, down_) if up_ and down_ else ([("anchor", "scroll primitives")], 0)
+        except Exception as ex:
+            c = ([("evaluation", "cannot evaluate the scrolling handlers: %r" % (ex,))], 0)
+        w.facts._scroll_table = c
+    return c
+
+
 def linefeed_rule(ctx, w, S, R, up):
     """W10: the two places that implement 'move down or scroll'."""
     E = w.E
+    # the guard shapes below are the diagnosis; the verdict on LF / NEL / RI is the evaluated decision table (W14), on the wrapping print Y13
+    from rules import c04 as _c04
+    bad_, n_ = scroll_table_verdict(w, S, R)
+    ctx = shared.Deferred(ctx, {"W10", "W10r"}, (not bad_ and n_ >= 3000 and _c04.print_ok(w, S, R)))
     cur = R["cursor"]
     row_t, bm_t = ("load", ("arg1", cur, "row")), ("load", ("arg1", R["bottom_margin"]))
     ctx.rule("W10", "moving down a line scrolls the region iff the cursor is on the bottom margin; it moves down only when it is not (and not on the last row)")
@@ -468,10 +486,7 @@ def scroll_table_rule(ctx, w, S, R, rule="W14"):
     if not up or not down:
         ctx.missing_anchor(rule, "the two scroll primitives of the buffer")
         return
-    try:
-        bad, n = hinterp.scroll_handlers_semantics(w, S, R, up, down)
-    except Exception as ex:
-        bad, n = [("evaluation", "cannot evaluate the scrolling handlers: %r" % (ex,))], 0
+    bad, n = scroll_table_verdict(w, S, R)
     for key, text in bad[:8]:
         ctx.violation(rule, key, text, loc=None)
     if not bad:
